@@ -518,6 +518,27 @@ impl SocketTable {
     }
 }
 
+#[cfg(feature = "verif-hooks")]
+impl Fd {
+    /// Raw table id (read-only verification hook).
+    pub fn verif_raw(&self) -> u64 {
+        self.0
+    }
+}
+
+#[cfg(feature = "verif-hooks")]
+impl SocketTable {
+    /// `(sockets, binding-index entries, connection-index entries)`.
+    /// Binding entries are counted per `(key, fd)` pair.
+    pub fn verif_counts(&self) -> (usize, usize, usize) {
+        (
+            self.sockets.len(),
+            self.bindings.values().map(Vec::len).sum(),
+            self.connections.len(),
+        )
+    }
+}
+
 impl Default for SocketTable {
     fn default() -> Self {
         Self::new()
